@@ -818,6 +818,88 @@ macro_rules! maha_dispatch {
     };
 }
 
+/// Mahalanobis at extreme overall scales: covariance 2^k·A (A well conditioned, entries of order one), points
+/// 2^(k/2+j)·u apart. Scaling by powers of two is exact, so the distance has to be 2^j·sqrt(uᵀA⁻¹u) whatever k is —
+/// also when the products of two coordinate differences (2^(k+2j)) or of two covariance entries leave the range of
+/// the width although every input, every entry of the inverse and the distance itself are comfortably inside it.
+fn maha_scale_t<T: RealNumber>(c: &mut Case) {
+    let is32 = width::<T>() == "f32";
+    let n = c.rng.us(1, 6);
+    let a0 = spd(&mut c.rng, n, 50.0).0;
+    let mut a = a0.clone();
+    sym(&mut a);
+    let a = if is32 { a.round_f32() } else { a };
+    if !(cond(&a) <= 1e3) {
+        c.skip("drawn covariance not well conditioned after rounding");
+        return;
+    }
+    // exponent budget: keep inputs, the inverse and the distance at least 2^20 inside the normal range
+    let (kmax, emax) = if is32 { (100i32, 106i32) } else { (900i32, 1000i32) };
+    let k = 2 * c.rng.int(-(kmax as i64) / 2, (kmax as i64) / 2) as i32;
+    // |j| <= 40 (f32) / 60 (f64): the squared distance 2^(2j)·uᵀA⁻¹u, which the closed form itself contains, stays finite
+    let jlim = (emax - k.abs() / 2).min(if is32 { 40 } else { 60 });
+    let j = c.rng.int(-(jlim as i64), jlim as i64) as i32;
+    let u: Vec<f64> = (0..n).map(|_| if is32 { (c.rng.normal() as f32) as f64 } else { c.rng.normal() }).collect();
+    if u.iter().all(|v| *v == 0.0) {
+        c.skip("zero direction");
+        return;
+    }
+    let base: Vec<f64> = if c.rng.bool(0.5) { vec![0.0; n] } else { (0..n).map(|_| c.rng.int(-4, 4) as f64).collect() };
+    let sc = 2f64.powi(k / 2 + j);
+    let xs: Vec<f64> = base.iter().map(|b| b * sc).collect();
+    let ys: Vec<f64> = (0..n).map(|i| (base[i] + u[i]) * sc).collect();
+    // the difference the library will form, in units of 2^(k/2+j) (exact: power-of-two scaling)
+    let w: Vec<f64> = (0..n).map(|i| if is32 { ((ys[i] as f32 - xs[i] as f32) as f64) / sc } else { (ys[i] - xs[i]) / sc }).collect();
+    let cov = a.scale(2f64.powi(k));
+    let sol = match solve(&a, &Mat::from_fn(n, 1, |i, _| w[i])) {
+        Some(v) => v,
+        None => {
+            c.skip("reference solve failed");
+            return;
+        }
+    };
+    let q = csum((0..n).map(|i| w[i] * sol.at(i, 0)));
+    if !(q > 0.0) {
+        c.skip("degenerate direction");
+        return;
+    }
+    let dref = q.sqrt() * 2f64.powi(j);
+    let products_leave_range = {
+        let e = (k + 2 * j) as f64;
+        let (lo, hi) = if is32 { (-126.0, 127.0) } else { (-1022.0, 1023.0) };
+        e < lo + 8.0 || e > hi - 8.0
+    };
+    c.describe(json!({"width": width::<T>(), "n": n, "covariance = 2^k * A": {"k": k, "A": mat_json(&a)}, "x": xs, "y": ys, "j": j, "closed_form_distance": dref}));
+    c.hash_f64s(&xs);
+    c.hash_f64s(&ys);
+    c.hash_f64s(&cov.d);
+    c.nontrivial();
+    c.bucket(&format!("width:{}", width::<T>()));
+    c.bucket(if k.abs() * 10 >= kmax * 6 { "cov-scale:extreme" } else if k.abs() * 10 >= kmax * 2 { "cov-scale:far-from-1" } else { "cov-scale:moderate" });
+    c.bucket_if(products_leave_range, "products-of-two-differences-leave-the-range");
+    let sg = format!("{}/cov-scale-2^k/{}", width::<T>(), if products_leave_range { "difference-products-out-of-range" } else { "difference-products-in-range" });
+    let cm: DenseMatrix<T> = to_dense(&cov);
+    let md = match c.must("mahalanobis.new_from_covariance", || Mahalanobis::new_from_covariance(&cm)) {
+        Some(m) => m,
+        None => return,
+    };
+    let (x, y): (Vec<T>, Vec<T>) = (tv(&xs), tv(&ys));
+    if let Some((dxy, dyx, dxx)) = c.must("mahalanobis.distance", || (f(md.distance(&x, &y)), f(md.distance(&y, &x)), f(md.distance(&x, &x)))) {
+        let tol = 256.0 * (n as f64 + 4.0) * eps::<T>() * cond(&a);
+        c.ratio("mahalanobis.closed-form", (dxy - dref).abs() / dref, tol, &sg, || format!("d(x, y) = {:e}, closed form 2^j·sqrt(uᵀA⁻¹u) = {:e}", dxy, dref));
+        c.ratio("mahalanobis.symmetric", (dxy - dyx).abs() / dref, tol, &sg, || format!("d(x, y) = {:e}, d(y, x) = {:e}", dxy, dyx));
+        c.check("mahalanobis.identical=>0", dxx == 0.0, &sg, || format!("d(x, x) = {:e}", dxx));
+    }
+}
+
+fn maha_scale(c: &mut Case) {
+    if c.rng.bool(0.4) {
+        maha_scale_t::<f32>(c)
+    } else {
+        maha_scale_t::<f64>(c)
+    }
+}
+
 fn maha_cov(c: &mut Case) {
     let is32 = c.rng.bool(0.5);
     let backend = *c.rng.pick(&["dense", "dense", "dense", "ndarray", "nalgebra"]);
@@ -989,6 +1071,7 @@ fn main() {
             Family::new("hamming", 10000, 200000, hamming),
             Family::new("maha_cov", 12000, 200000, maha_cov),
             Family::new("maha_data", 8000, 120000, maha_data),
+            Family::new("maha_scale", 6000, 100000, maha_scale),
             Family::new("reject", REJ_TOTAL, REJ_TOTAL, reject).exhaustive(true, true),
         ],
         min_nontrivial: 10000,
